@@ -206,6 +206,11 @@ def triggers_of(src):
                     reads.add(n.target.id)
                 if reads & written:
                     t.add("global_read_in_expression_with_call_that_writes_it")
+    # math function (folded by the transpiler) applied to something containing HASH(..): foldable only in compact mode
+    for n in ast.walk(tree):
+        if isinstance(n, ast.Call) and isinstance(n.func, ast.Name) and n.func.id in ("sin", "cos", "tan", "asin", "acos", "atan", "atan2", "sqrt", "log", "exp") and n.func.id not in fdefs:
+            if any(isinstance(m, ast.Call) and isinstance(m.func, ast.Name) and m.func.id == "HASH" for a in n.args for m in ast.walk(a)):
+                t.add("math_function_of_hash")
     # user data in the part of the chip's own stack that the call conventions use (push ra from cell 0 upwards,
     # arguments / results in the top cells)
     for n in ast.walk(tree):
